@@ -322,7 +322,7 @@ func (rn *c09run) aliasOracle() {
 // ---------- running operations ----------
 
 func (rn *c09run) add(p *tak.Position, live bool, parent int) int {
-	rn.objs = append(rn.objs, &c09obj{p: p, live: live, parent: parent, bornStep: len(rn.ops)})
+	rn.objs = append(rn.objs, &c09obj{p: p, live: live, parent: parent, bornStep: len(rn.ops) - 1})
 	return len(rn.objs) - 1
 }
 
@@ -477,6 +477,16 @@ func (rn *c09run) observeAll(op c09op, res, created int) {
 	rn.aliasOracle()
 	rn.l1 = append(rn.l1, strings.Join(s1, " "))
 	rn.l2 = append(rn.l2, strings.Join(s2, " "))
+}
+
+// a panic of the implementation outside the guarded calls (while a start position is generated, in FromSquares, in a
+// read) becomes an oracle failure carrying the operations run so far
+func (rn *c09run) recoverAndEmit(c *ctx, kind string) {
+	if e := recover(); e != nil {
+		rn.seen = map[string]bool{}
+		rn.fail("panic", fmt.Sprintf("panic after %d operations: %v", len(rn.ops), e), "no panic")
+		rn.emit(c, kind)
+	}
 }
 
 func (rn *c09run) input() string {
@@ -701,6 +711,7 @@ func c09RandomSeq(c *ctx, withLegal, full bool) {
 	r := c.r
 	size := 3 + r.Intn(6)
 	rn := newC09run(withLegal, full)
+	defer rn.recoverAndEmit(c, "random")
 	rn.apply(c09Start(r, size))
 	if r.Intn(3) == 0 {
 		rn.apply(c09Start(r, size))
@@ -791,6 +802,7 @@ func c09Exhaustive(c *ctx, depth int, starts int, full bool) {
 		var rec func(prefix []choice)
 		run := func(seq []choice) bool {
 			rn := newC09run(false, full)
+			defer rn.recoverAndEmit(c, "exhaustive")
 			rn.apply(first)
 			l0 := rn.objs[0].moves
 			if len(l0) == 0 {
@@ -881,7 +893,9 @@ func runC09(c *ctx) {
 				sub := &ctx{w: bufio.NewWriterSize(&buf, 1<<16), r: rand.New(rand.NewSource(seeds[i])), tier: c.tier, seed: seeds[i],
 					stats: map[string]int64{}, scale: c.scale}
 				k := lo + i
-				c09RandomSeq(sub, c.quick() || k%10 == 0, c.quick() || k%20 == 0)
+				// the legal move set is compared with the model on a fraction of the sequences (the model needs ~15 ms per
+				// position for it); the Go oracle checks it on every handle of every sequence
+				c09RandomSeq(sub, (c.quick() && k%9 == 0) || k%41 == 0, c.quick() || k%21 == 0)
 				sub.w.Flush()
 				outs[i], stats[i] = &buf, sub.stats
 			}(i)
